@@ -32,6 +32,92 @@ impl PartialEq for El {
     }
 }
 
+/// Element shapes: the same scripted equality over differently built value types.
+trait Elem: Clone + PartialEq {
+    fn make(serial: u64, class: u32, mode: Mode) -> Self;
+    fn serial(&self) -> u64;
+    const SHAPE: &'static str;
+}
+fn rel(a: (u32, Mode), b: (u32, Mode)) -> bool {
+    El { serial: 0, class: a.0, mode: a.1 } == El { serial: 0, class: b.0, mode: b.1 }
+}
+impl Elem for El {
+    fn make(serial: u64, class: u32, mode: Mode) -> El {
+        El { serial, class, mode }
+    }
+    fn serial(&self) -> u64 {
+        self.serial
+    }
+    const SHAPE: &'static str = "struct";
+}
+/// An enum whose equality ignores the variant (equal values of different variants exist).
+#[derive(Clone, Debug)]
+enum ElEnum {
+    A(u64, u32, Mode),
+    B { class: u32, serial: u64, mode: Mode },
+    C(Box<(u64, u32, Mode)>),
+    D,
+}
+impl ElEnum {
+    fn key(&self) -> (u32, Mode) {
+        match self {
+            ElEnum::A(_, c, m) => (*c, *m),
+            ElEnum::B { class, mode, .. } => (*class, *mode),
+            ElEnum::C(b) => (b.1, b.2),
+            ElEnum::D => (0, Mode::Class),
+        }
+    }
+}
+impl PartialEq for ElEnum {
+    fn eq(&self, o: &ElEnum) -> bool {
+        rel(self.key(), o.key())
+    }
+}
+impl Elem for ElEnum {
+    fn make(serial: u64, class: u32, mode: Mode) -> ElEnum {
+        // serials are unique, so equal values are spread over the variants; D is the serial-less (0, Class)
+        match serial % 3 {
+            0 => ElEnum::A(serial, class, mode),
+            1 => ElEnum::B { class, serial, mode },
+            _ => ElEnum::C(Box::new((serial, class, mode))),
+        }
+    }
+    fn serial(&self) -> u64 {
+        match self {
+            ElEnum::A(s, ..) => *s,
+            ElEnum::B { serial, .. } => *serial,
+            ElEnum::C(b) => b.0,
+            ElEnum::D => 0,
+        }
+    }
+    const SHAPE: &'static str = "enum";
+}
+/// Heap-owning and large: moves, drops and reallocation of the storage matter.
+#[derive(Clone, Debug)]
+struct ElBig {
+    pad: [u64; 24],
+    name: String,
+    inner: El,
+}
+impl PartialEq for ElBig {
+    fn eq(&self, o: &ElBig) -> bool {
+        self.inner == o.inner
+    }
+}
+impl Elem for ElBig {
+    fn make(serial: u64, class: u32, mode: Mode) -> ElBig {
+        ElBig { pad: [serial; 24], name: format!("value {}", serial), inner: El { serial, class, mode } }
+    }
+    fn serial(&self) -> u64 {
+        if self.pad.iter().all(|p| *p == self.inner.serial) && self.name == format!("value {}", self.inner.serial) {
+            self.inner.serial
+        } else {
+            u64::MAX - 1
+        }
+    }
+    const SHAPE: &'static str = "large heap-owning struct";
+}
+
 #[derive(Clone, Copy, Debug)]
 enum OpK {
     Append,
@@ -45,13 +131,17 @@ fn play(hist: &[(OpK, u32, Mode)], r: &mut Report, rp: &dyn Fn() -> Json, stage:
 /// `sparse`: long histories – the lookups of all earlier tokens are compared at every 64th step and at the end
 /// (plus the first, the last and one rotating earlier token at every step) instead of at every step.
 fn play_opt(hist: &[(OpK, u32, Mode)], r: &mut Report, rp: &dyn Fn() -> Json, stage: &str, sparse: bool) {
+    play_shape::<El>(hist, r, rp, stage, sparse)
+}
+
+fn play_shape<T: Elem>(hist: &[(OpK, u32, Mode)], r: &mut Report, rp: &dyn Fn() -> Json, stage: &str, sparse: bool) {
     let show_all = |h: &[(OpK, u32, Mode)]| h.iter().map(|(o, c, m)| format!("{}({}{})", if matches!(o, OpK::Append) { "append" } else { "fetch_or_append" }, c, match m { Mode::Never => "~nan", Mode::Near => "~near", Mode::Wild => "~any", Mode::Class => "" })).collect::<Vec<_>>().join(" ");
     let show = || if hist.len() <= 320 { show_all(hist) } else { format!("{} ...({} more operations)... {}", show_all(&hist[..40]), hist.len() - 240, show_all(&hist[hist.len() - 200..])) };
-    let mut st: Storage<El> = Storage::new();
-    let mut model: Vec<El> = vec![];
-    let mut tokens: Vec<Token<El>> = vec![];
+    let mut st: Storage<T> = Storage::new();
+    let mut model: Vec<T> = vec![];
+    let mut tokens: Vec<Token<T>> = vec![];
     for (step, (op, class, mode)) in hist.iter().enumerate() {
-        let el = El { serial: step as u64 + 1, class: *class, mode: *mode };
+        let el = T::make(step as u64 + 1, *class, *mode);
         let before = model.len();
         let (tok, expect_index, appended) = match op {
             OpK::Append => {
@@ -81,12 +171,12 @@ fn play_opt(hist: &[(OpK, u32, Mode)], r: &mut Report, rp: &dyn Fn() -> Json, st
                 (OpK::Fetch, true) => "fetch-should-append",
                 (OpK::Fetch, false) => "fetch-first-equal",
             };
-            r.violation(format!("C19:{}:{}", stage, rule), format!("history [{}] step {}: returned token index {}, model expects {}", show(), step, tok.index(), expect_index), rp().set("history", show()));
+            r.violation(format!("C19:{}:{}", stage, rule), format!("history [{}] over {} elements, step {}: returned token index {}, model expects {}", show(), T::SHAPE, step, tok.index(), expect_index), rp().set("history", show()));
             return;
         }
         // the returned token and every earlier token still yield their values
-        let want_serial = model[expect_index].serial;
-        match catch(|| st[tok].serial) {
+        let want_serial = model[expect_index].serial();
+        match catch(|| st[tok].serial()) {
             Ok(s) if s == want_serial => {}
             other => {
                 r.violation(format!("C19:{}:lookup-returned", stage), format!("history [{}] step {}: storage[token {}] has serial {:?}, expected {}", show(), step, tok.index(), other.ok(), want_serial), rp().set("history", show()));
@@ -98,10 +188,10 @@ fn play_opt(hist: &[(OpK, u32, Mode)], r: &mut Report, rp: &dyn Fn() -> Json, st
             if sparse && !last_step && step % 64 != 0 && i != 0 && i + 1 != tokens.len() && i != step % tokens.len() {
                 continue;
             }
-            match catch(|| st[*t].serial) {
-                Ok(s) if s == model[i].serial && t.index() as usize == i => {}
+            match catch(|| st[*t].serial()) {
+                Ok(s) if s == model[i].serial() && t.index() as usize == i => {}
                 other => {
-                    r.violation(format!("C19:{}:earlier-token-changed", stage), format!("history [{}] after step {}: token #{} (index {}) yields serial {:?}, expected {}", show(), step, i, t.index(), other.ok(), model[i].serial), rp().set("history", show()));
+                    r.violation(format!("C19:{}:earlier-token-changed", stage), format!("history [{}] after step {}: token #{} (index {}) yields serial {:?}, expected {}", show(), step, i, t.index(), other.ok(), model[i].serial()), rp().set("history", show()));
                     return;
                 }
             }
@@ -109,7 +199,7 @@ fn play_opt(hist: &[(OpK, u32, Mode)], r: &mut Report, rp: &dyn Fn() -> Json, st
         r.count("operations", 1);
     }
     // an extra append reveals the real length (a fetch that wrongly appended would shift it)
-    let probe = st.append(El { serial: u64::MAX, class: 255, mode: Mode::Never });
+    let probe = st.append(T::make(u64::MAX, 255, Mode::Never));
     if probe.index() as usize != model.len() {
         r.violation(format!("C19:{}:length", stage), format!("history [{}]: storage holds {} values, model {}", show(), probe.index(), model.len()), rp().set("history", show()));
     }
@@ -380,7 +470,7 @@ fn capacity<T: CapEl>(limit: u64, r: &mut Report, rp: &dyn Fn() -> Json) {
 }
 
 pub fn run(cfg: &Cfg, rep: &mut Report) {
-    rep.rule = "histories of append / fetch_or_append over elements with scripted symmetric equality relations (class equality ignoring a unique serial; NaN-like elements equal to nothing; non-transitive 'near' equality; wildcards equal to everything) replayed against a Vec model; after every operation the returned token index, its lookup and the lookups of ALL earlier tokens are compared; exhaustive over all histories up to length 6 (quick: 4) of {append,fetch} x {3 classes, NaN-like, wildcard} under exact and under near equality, then random histories up to 200 operations, long histories (300..4100 stored values, sparse re-checks of earlier tokens) and capacity histories (storages of zero-sized and one-byte elements grown past 2^24 values, thorough: past 2^32 values, every append's index compared, fetch_or_append and token re-lookups around every power of two). distinct_nontrivial = distinct histories (by length bucket and content hash)".into();
+    rep.rule = "histories of append / fetch_or_append over elements with scripted symmetric equality relations (class equality ignoring a unique serial; NaN-like elements equal to nothing; non-transitive 'near' equality; wildcards equal to everything) replayed against a Vec model; after every operation the returned token index, its lookup and the lookups of ALL earlier tokens are compared; exhaustive over all histories up to length 6 (quick: 4) of {append,fetch} x {3 classes, NaN-like, wildcard} under exact and under near equality, then random histories up to 200 operations, the same over other element shapes (an enum whose equality ignores the variant, a large heap-owning struct), long histories (300..4100 stored values, sparse re-checks of earlier tokens) and capacity histories (storages of zero-sized and one-byte elements grown past 2^24 values, thorough: past 2^32 values, every append's index compared, fetch_or_append and token re-lookups around every power of two). distinct_nontrivial = distinct histories (by length bucket and content hash)".into();
     let miri = cfg.mode == "miri";
     // exhaustive small histories: alphabet of 10 symbols = {append, fetch} x {class0, class1, class2, nan, wildcard},
     // played twice: with exact class equality and with the non-transitive "near" equality
@@ -421,6 +511,19 @@ pub fn run(cfg: &Cfg, rep: &mut Report) {
         let h = gen_long(rng);
         r.seen("long_history_lengths_by_256", format!("{:05}", h.len() / 256 * 256));
         play_opt(&h, r, &|| crate::util::replay_ref(cfg, "long", idx), "long", true);
+    });
+    // the same histories over other element shapes: an enum whose equality ignores the variant, a large
+    // heap-owning struct
+    let n = if miri { 12 } else { cfg.n(60_000, 10_000_000) };
+    run_stage(cfg, rep, "shapes", n, |idx, rng, r| {
+        let h = if idx % 16 == 15 && !miri { gen_long(rng) } else { gen_hist(rng) };
+        let rp = || crate::util::replay_ref(cfg, "shapes", idx);
+        if idx % 2 == 0 {
+            play_shape::<ElEnum>(&h, r, &rp, "shapes", h.len() > 300);
+        } else {
+            play_shape::<ElBig>(&h, r, &rp, "shapes", h.len() > 300);
+        }
+        r.seen("element_shapes", if idx % 2 == 0 { ElEnum::SHAPE } else { ElBig::SHAPE });
     });
     if !miri {
         // capacity histories: quick up to just beyond 2^24 appends, thorough beyond 2^32 (zero-sized elements)
